@@ -69,7 +69,7 @@ bool is_private_or_reserved_ipv4(const std::array<std::uint8_t, 4>& ip) {
     if (ip[0] == 192 && ip[1] == 0 && ip[2] == 2) return true;     // TEST-NET-1
     if (ip[0] == 198 && ip[1] == 51 && ip[2] == 100) return true;  // TEST-NET-2
     if (ip[0] == 203 && ip[1] == 0 && ip[2] == 113) return true;   // TEST-NET-3
-    if (ip[0] == 198 && ip[1] == 18) return true;                  // Benchmarking
+    if (ip[0] == 198 && (ip[1] == 18 || ip[1] == 19)) return true;  // Benchmarking (198.18.0.0/15)
     if (ip[0] >= 224) return true;                                 // Multicast/reserved
     return false;
 }
